@@ -219,6 +219,8 @@ class Check:
     def finish(self) -> int:
         known = [f for f in load_known() if f["property"] == self.pid and f.get("status") == "finding"]
         REPLAYS.joinpath(self.pid).mkdir(parents=True, exist_ok=True)
+        for old in REPLAYS.joinpath(self.pid).glob(f"{self.tier}-{self.seed}-*.json"):
+            old.unlink()
         unknown = []
         reported_known = {}
         for v in self.violations:
